@@ -3,6 +3,7 @@ package props
 import (
 	"fmt"
 	"go/token"
+	"go/types"
 	"strings"
 
 	"ndndcheck/core"
@@ -196,6 +197,13 @@ func C07(c *core.Ctx) {
 					if _, okF := core.FieldOf(lk.X, "csMap"); okF {
 						return 1, -1
 					}
+				}
+			}
+			// or: the entry cached at the tree node of the name (node.csEntry != nil) — the
+			// form that does not rely on the name's hash to identify the entry
+			if op, x, y, okC := core.Cmp(cond); okC && (op == token.EQL || op == token.NEQ) && core.IsNilConst(y) {
+				if _, okF := core.FieldOf(x, "csEntry"); okF {
+					return core.Iff(op == token.NEQ)
 				}
 			}
 			return 0, 0
@@ -555,4 +563,191 @@ func C07(c *core.Ctx) {
 			c.Decide(ok, "R7.5", "switch-reads-config:"+nm[0], p.Pos(fn.Pos()), nm[0]+" returns "+nm[1], nm[0]+" does not return the configured "+nm[1])
 		}
 	}
+
+	// ---- R7.8 the name tree identifies a child by the component ITSELF, and a cached entry by
+	// its tree node: the key type of pitCsTreeNode.children is not a bare integer (a hash —
+	// the unkeyed 64-bit xxHash of the component, for which a second component with the
+	// same hash is computed directly), and no index of the store is looked up under a value
+	// that comes out of a Hash() call. Otherwise a lookup answers with Data of another name.
+	{
+		var keyT types.Type
+		if nt := p.Named("fw/table", "pitCsTreeNode"); nt != nil {
+			if st, ok := nt.Underlying().(*types.Struct); ok {
+				for i := 0; i < st.NumFields(); i++ {
+					if st.Field(i).Name() == "children" {
+						if mt, isM := st.Field(i).Type().Underlying().(*types.Map); isM {
+							keyT = mt.Key()
+						}
+					}
+				}
+			}
+		}
+		if keyT == nil {
+			c.Und("R7.8", "name-tree-child-key", "-", "pitCsTreeNode.children not found")
+		} else {
+			_, isInt := keyT.Underlying().(*types.Basic)
+			c.Decide(!isInt, "R7.8", "name-tree-child-key-is-the-component", "-", "children are keyed by "+keyT.String(), "the PIT/CS name tree keys the children of a node by "+keyT.String()+" — a hash of the component, not the component: two components with equal hashes (computable for the unkeyed xxHash) share a node, and the Content Store answers an Interest for one name with the Data of another")
+		}
+		nIdx, bad := 0, ""
+		for _, fn := range p.FuncsIn(core.ModPath + "/fw/table") {
+			if id := core.FuncID(core.RootOf(fn)); id.Recv != "PitCsTree" {
+				continue
+			}
+			core.Instrs(fn, func(in ssa.Instruction) {
+				var m, k ssa.Value
+				switch x := in.(type) {
+				case *ssa.Lookup:
+					m, k = x.X, x.Index
+				case *ssa.MapUpdate:
+					m, k = x.Map, x.Key
+				default:
+					return
+				}
+				if _, isCs := core.FieldOf(m, "csMap"); !isCs {
+					return
+				}
+				nIdx++
+				if cl, isC := core.Strip(core.Resolve(k)).(*ssa.Call); isC {
+					if id, okID := core.Callee(&cl.Call); okID && (id.Name == "Hash" || id.Name == "PrefixHash") {
+						bad = core.FuncName(fn) + " at " + c.Pos(in)
+					}
+				}
+			})
+		}
+		c.Decide(bad == "", "R7.8", "store-index-not-keyed-by-name-hash", "-", fmt.Sprintf("%d accesses to the store's index, none under a name hash", nIdx), "the Content Store's index is accessed under the hash of a name ("+bad+"): a second name with the same hash (computable) refreshes or is answered with the entry of the first")
+	}
+
+	// ---- R7.7 a period read from the wire becomes a time.Duration only behind an upper bound:
+	// in every generated parser, the multiplication of a decoded 64-bit number by a Duration
+	// unit (time.Millisecond) is reachable only on an edge asserting that the number is at
+	// most a bound derived from the longest Duration. Otherwise a FreshnessPeriod of 292
+	// years or more wraps around to a negative duration, the stale time lies in the past,
+	// and Data that is cached, unevicted and fresh is not found by a MustBeFresh lookup.
+	{
+		models, _ := discoverModels(p)
+		nMul, bad := 0, ""
+		seenFn := map[*ssa.Function]bool{}
+		for _, m := range models {
+			fn := p.Func(m.Pkg.PkgPath, m.Name+"ParsingContext", "Parse")
+			if fn == nil || fn.Blocks == nil || seenFn[fn] {
+				continue
+			}
+			seenFn[fn] = true
+			core.Instrs(fn, func(in ssa.Instruction) {
+				b, ok := in.(*ssa.BinOp)
+				if !ok || b.Op != token.MUL {
+					return
+				}
+				if nt, isN := b.Type().(*types.Named); !isN || nt.Obj().Name() != "Duration" {
+					return
+				}
+				var unit int64
+				var val ssa.Value
+				for _, pair := range [][2]ssa.Value{{b.X, b.Y}, {b.Y, b.X}} {
+					if k, isC := core.ConstInt(pair[1]); isC && k > 1 {
+						unit, val = k, pair[0]
+					}
+				}
+				if val == nil {
+					return
+				}
+				src := core.StripConv(val)
+				nMul++
+				bounded := &core.Atom{Name: "number ≤ longest Duration / unit", Match: func(cond ssa.Value) (int, int) {
+					op, x, y, okC := core.Cmp(cond)
+					if !okC || core.StripConv(x) != src {
+						return 0, 0
+					}
+					k, isC := core.ConstInt(core.StripConv(y))
+					if !isC {
+						// or a Duration divided by the same unit (any int64 / unit fits)
+						q, isQ := core.StripConv(y).(*ssa.BinOp)
+						if !isQ || q.Op != token.QUO {
+							return 0, 0
+						}
+						if d, isD := core.ConstInt(q.Y); !isD || d != unit {
+							return 0, 0
+						}
+						if nt, isN := q.Type().(*types.Named); !isN || nt.Obj().Name() != "Duration" {
+							return 0, 0
+						}
+					} else if k <= 0 || k > (1<<63-1)/unit {
+						return 0, 0
+					}
+					switch op {
+					case token.LEQ, token.LSS:
+						return 1, -1
+					case token.GTR, token.GEQ:
+						return -1, 1
+					}
+					return 0, 0
+				}}
+				g := core.Gate(fn, []ssa.Instruction{in}, pos(bounded))
+				if !(g.OK && g.PassEdges > 0) {
+					bad = core.FuncName(fn) + " at " + c.Pos(in)
+				}
+			})
+		}
+		c.Decide(bad == "", "R7.7", "decoded-period-bounded-before-scaling", "-", fmt.Sprintf("%d multiplications of a decoded number by a Duration unit in generated parsers, each behind an upper bound", nMul), "a generated parser scales a decoded 64-bit number to a time.Duration without an upper bound ("+bad+"): from 9223372036855 ms on the product wraps around to a negative duration — Data with such a FreshnessPeriod is stale the moment it is cached and a MustBeFresh lookup misses it although it is cached, unevicted and fresh")
+		c.Floor("R7.7", "scalings of a decoded number to a Duration in generated parsers", nMul, 3)
+	}
+
+	// ---- R7.6 a table setting that management changes at run time is read and written under
+	// a lock: every package-level variable of fw/table that an exported function other than
+	// Configure stores to (SetCsCapacity) is accessed — outside Configure, which runs before
+	// any thread starts — only with a package-level lock held. The forwarding threads read
+	// the capacity while they evict; an unordered write is a data race and "at most the
+	// currently configured capacity" is not guaranteed.
+	{
+		pkgT := core.ModPath + "/fw/table"
+		_, heldT := core.EntryLocks(p, pkgT)
+		runtimeSet := map[*ssa.Global]string{}
+		for _, fn := range p.FuncsIn(pkgT) {
+			if fn.Parent() != nil || fn.Object() == nil || !fn.Object().Exported() || fn.Name() == "Configure" || fn.Signature.Recv() != nil {
+				continue
+			}
+			core.Instrs(fn, func(in ssa.Instruction) {
+				if st, ok := in.(*ssa.Store); ok {
+					if g, isG := st.Addr.(*ssa.Global); isG {
+						if _, isBasic := core.Deref(g.Type()).Underlying().(*types.Basic); isBasic {
+							runtimeSet[g] = core.FuncName(fn)
+						}
+					}
+				}
+			})
+		}
+		nAcc, bad := 0, ""
+		for _, fn := range p.FuncsIn(pkgT) {
+			if strings.HasSuffix(p.File(fn.Pos()), "_test.go") || core.BaseName(core.RootOf(fn)) == "Configure" || fn.Name() == "init" {
+				continue
+			}
+			core.Instrs(fn, func(in ssa.Instruction) {
+				var g *ssa.Global
+				switch x := in.(type) {
+				case *ssa.Store:
+					g, _ = x.Addr.(*ssa.Global)
+				case *ssa.UnOp:
+					if x.Op == token.MUL {
+						g, _ = x.X.(*ssa.Global)
+					}
+				}
+				if g == nil || runtimeSet[g] == "" {
+					return
+				}
+				nAcc++
+				locked := false
+				for l := range heldT[fn][in] {
+					if strings.Contains(l, ":global.") {
+						locked = true
+					}
+				}
+				if !locked {
+					bad = g.Name() + " in " + core.FuncName(fn) + " at " + c.Pos(in)
+				}
+			})
+		}
+		c.Decide(bad == "", "R7.6", "runtime-settings-accessed-under-a-lock", "-", fmt.Sprintf("%d accesses to %d settings that are changed at run time, all under a package-level lock", nAcc, len(runtimeSet)), "a table setting that management changes while the forwarder runs is accessed without a lock ("+bad+"): the management goroutine writes it while the forwarding threads read it during eviction — a data race; the capacity in force at an eviction is not ordered with the cs/config command that lowered it")
+		c.Floor("R7.6", "table settings changed at run time", len(runtimeSet), 1)
+	}
+
 }
